@@ -293,9 +293,10 @@ Definition handle_subscribe (cfg : gw_cfg) (s : gw_state) (dup : bool) (qos tit 
   if (2 <? qos) || (mid =? 0) then stop s [] EcHandlerError else
   if tit =? TIT_STRING then
     if negb (has_wildcard name) then
-      match new_topic_id cfg s with
+      (* registerTopic: the name keeps the topic ID it already has in this session *)
+      match register_topic cfg s name with
       | (s, None) => sn_send s (Suback 0 0 mid RC_INVALID_TOPIC_ID)
-      | (s, Some i) => go (s <| gw_registered := <[i := name]> (gw_registered s) |>) name i
+      | (s, Some i) => go s name i
       end
     else go s name 0
   else if tit =? TIT_PREDEFINED then
